@@ -30,6 +30,8 @@
    argument order - no worker count in it), and respects_durations / timely say which schedules agree
    with the duration classes. *)
 From ASV Require Import Base.
+From ASV.C16 Require Model.     (* the identifier rules of pre-processing (fix_record_name_id, generate_unique_id,
+                                   the duplicate pass) are transcribed there; used qualified, nothing is imported *)
 
 (* ---------- the task function ---------- *)
 (* a call either returns a value or raises: f : A -> res B.  A chunk is run by
@@ -335,10 +337,11 @@ Definition finding_K2 (cfg_cpus cpus : Z) (timeout : option Z) (jobs : list (boo
    go to the workers, WHAT replaces the caller's list afterwards (the list returned by
    parallel_function, whole records: `sequences = parallel_function(...)`), the single-record bypass,
    the filters between the two parallel stages, and the final "all records skipped" error.
-   Not transcribed (guard of the correspondence, see harness): the id/name rewriting block
-   (generate_unique_id, fix_record_name_id: the identity for unique ids/names of at most 16 characters
-   without a long accession), records with an undefined sequence (WGS/supercontig master records),
-   non-ASCII sequence characters.  The gene finder is a parameter gf : prec -> res prec. *)
+   Not transcribed HERE (guard of the correspondence of this pipeline model, see harness): the id/name
+   rewriting block (generate_unique_id, fix_record_name_id: the identity for unique ids/names of at most 16
+   characters without a long accession) - it is transcribed, with the sanitise batch that follows it, in the
+   section "the identifier block" further down; records with an undefined sequence (WGS/supercontig master
+   records), non-ASCII sequence characters.  The gene finder is a parameter gf : prec -> res prec. *)
 Record prec : Type := mkR {
   r_id : Z; r_index : Z; r_seq : list Z; r_skip : Z; r_ncds : Z; r_rest : Z }.
 
@@ -482,6 +485,127 @@ Definition pp_spec_ok (gf : prec -> res prec) (o : popts) (recs : list prec) (ou
   | _, _ => false
   end.
 
+(* ================================================================================================
+   pre_process_sequences, the block `if checking_required:` WITH the identifiers: the duplicate pass, the
+   loop `for record in sequences: fix_record_name_id(record, all_record_ids, options.allow_long_headers)`
+   and the batch of sanitise_sequence calls that follows it.
+
+   fix_record_name_id reads AND updates the set all_record_ids: whether a rewritten id (illegal characters
+   removed, version dropped, shortened to c000NN_prefix..) is still free depends on what the calls for the
+   EARLIER records handed out.  The code runs this loop in the parent, over ONE set object threaded through
+   the records in argument order (C16.Model.fix_all), and only then hands the records - ids, names and
+   original ids already final - to the workers, whose function (sanitise_sequence) looks at record.seq and
+   record.skip only.  That is the reason why the identifiers cannot depend on the worker count
+   (C18_preprocess_ids_decided_in_parent); the variant further down, in which the bookkeeping is done
+   inside the function shipped to the workers, loses it (C18_preprocess_ids_per_call_copy_refuted).
+
+   A record is the pair (identifier part: id, name, original_id, record_index as in C16.Model.rec; body: prec,
+   whose r_id number plays no role here).  The identifier rules themselves (three regular expressions,
+   generate_unique_id, ...) are C16.Model's transcription; cn is the contig number function of _shorten_ids
+   (C16.Model.contig_no for the code as it is).  Not in the model: record.annotations['accession'] (shortened
+   without looking at the set; compared across worker counts by the harness). *)
+
+
+Definition nrec : Type := (C16.Model.rec * prec)%type.
+Definition nid (r : nrec) : C16.Model.str := C16.Model.r_id (fst r).
+Definition nids (l : list nrec) : list C16.Model.str := map nid l.
+
+(* sanitise_sequence on the whole record: the identifier part travels with it, untouched *)
+Definition clean_record (r : nrec) : res nrec := do b <- sanitise_sequence (snd r); Ok (fst r, b).
+
+(* for i, seq in enumerate(sequences): seq.record_index = i + 1 *)
+Fixpoint set_nindices (i : Z) (l : list nrec) : list nrec :=
+  match l with
+  | [] => []
+  | (a, b) :: rest => (C16.Model.mkRec (C16.Model.r_id a) (C16.Model.r_name a) (C16.Model.r_orig a) i, set_index i b) :: set_nindices (i + 1) rest
+  end.
+
+(* the block, over the helper pf used for the batch *)
+Definition ids_stage1 (pf : (nrec -> res nrec) -> list nrec -> res (list nrec)) (cn : Z -> C16.Model.str -> Z)
+           (allow : bool) (s0 : list nrec) : res (list nrec) :=
+  do (uniq, set) <- C16.Model.dedup_pass (map fst s0);     (* all_record_ids; duplicate raw ids renamed id_0, id_1, ... *)
+  do fixed <- C16.Model.fix_all cn allow uniq set;           (* IN THE PARENT: one set, threaded through the records *)
+  let s := combine fixed (map snd s0) in
+  match s with
+  | [r] => do r' <- clean_record r; Ok [r']         (* if len(sequences) == 1: no helper *)
+  | _ => pf clean_record s
+  end.
+
+(* `if not record.id: raise AntismashInputError("record has no name")` *)
+Definition named_check (s : list nrec) : res (list nrec) :=
+  if forallb (fun r => C16.Model.nonempty_id (fst r)) s then Ok s else Err E_Other.
+
+Definition no_empty_seq (recs : list nrec) : bool :=
+  negb (existsb (fun r => match r_seq (snd r) with [] => true | _ => false end) recs).
+
+Definition pp_ids_gen (pf : (nrec -> res nrec) -> list nrec -> res (list nrec)) (cn : Z -> C16.Model.str -> Z)
+           (allow : bool) (recs : list nrec) : res (list nrec) :=
+  if no_empty_seq recs then
+    do s1 <- ids_stage1 pf cn allow (set_nindices 1 recs); named_check s1
+  else Err E_Other.
+
+(* with the configured number of workers / in-process *)
+Definition pp_ids (cn : Z -> C16.Model.str -> Z) (allow : bool) (cfg_cpus : Z) (sched : list event) (recs : list nrec)
+  : res (list nrec) :=
+  pp_ids_gen (fun f => parallel_function f cfg_cpus 0 None sched) cn allow recs.
+Definition pp_ids_inproc (cn : Z -> C16.Model.str -> Z) (allow : bool) (recs : list nrec) : res (list nrec) :=
+  pp_ids_gen sequential cn allow recs.
+
+(* ---------- VARIANT (not the code; the design reason on record) ----------
+   The same block with the id bookkeeping moved into the function shipped to the workers:
+     _clean_record(record, all_record_ids, allow): fix_record_name_id(record, all_record_ids, allow); return sanitise_sequence(record)
+     parallel_function(_clean_record, ([record, all_record_ids, allow] for record in sequences))
+   Run in-process (one configured worker, or the single-record bypass) every call works on the SAME set object: the
+   set is threaded as before.  Through a pool every call unpickles its OWN copy of the set as it was when the
+   batch was submitted; what the call adds to its copy is thrown away with it.  (CPython pickles a chunk as one
+   object, so calls of one chunk would share a copy; the variant is stated per call - chunks of one call, which
+   is what a batch of at most 4 x workers records gets.) *)
+Definition clean_record_own_copy (cn : Z -> C16.Model.str -> Z) (allow : bool) (set : list C16.Model.str) (r : nrec) : res nrec :=
+  do (i, _) <- C16.Model.fix_record_name_id cn allow (fst r) set;
+  do b <- sanitise_sequence (snd r); Ok (i, b).
+
+Fixpoint clean_records_shared (cn : Z -> C16.Model.str -> Z) (allow : bool) (l : list nrec) (set : list C16.Model.str)
+  : res (list nrec) :=
+  match l with
+  | [] => Ok []
+  | r :: rest =>
+    do (i, set') <- C16.Model.fix_record_name_id cn allow (fst r) set;
+    do b <- sanitise_sequence (snd r);
+    do rs <- clean_records_shared cn allow rest set';
+    Ok ((i, b) :: rs)
+  end.
+
+Definition ids_stage1_per_call (cn : Z -> C16.Model.str -> Z) (allow : bool) (cfg_cpus : Z) (sched : list event)
+           (s0 : list nrec) : res (list nrec) :=
+  do (uniq, set) <- C16.Model.dedup_pass (map fst s0);
+  let s := combine uniq (map snd s0) in
+  match s with
+  | [r] => clean_records_shared cn allow s set
+  | _ => if effective_cpus cfg_cpus 0 =? 1
+         then clean_records_shared cn allow s set                                  (* the shortcut: one shared set object *)
+         else pool_map (clean_record_own_copy cn allow set) cfg_cpus None sched s  (* every call: its own copy *)
+  end.
+
+Definition pp_ids_per_call (cn : Z -> C16.Model.str -> Z) (allow : bool) (cfg_cpus : Z) (sched : list event)
+           (recs : list nrec) : res (list nrec) :=
+  if no_empty_seq recs then
+    do s1 <- ids_stage1_per_call cn allow cfg_cpus sched (set_nindices 1 recs); named_check s1
+  else Err E_Other.
+
+(* ---------- decidable specification of the identifier block on an implementation output ----------
+   exactly the in-process result (id, name, original_id, record_index, sequence, skip flag of every record),
+   and the ids pairwise distinct; an error only where the in-process run raises as well *)
+Definition ident_eqb (a b : C16.Model.rec) : bool :=
+  C16.Model.str_eqb (C16.Model.r_id a) (C16.Model.r_id b) && C16.Model.str_eqb (C16.Model.r_name a) (C16.Model.r_name b) &&
+  C16.Model.opt_str_eqb (C16.Model.r_orig a) (C16.Model.r_orig b) && (C16.Model.r_idx a =? C16.Model.r_idx b).
+Definition nrec_eqb (a b : nrec) : bool := ident_eqb (fst a) (fst b) && prec_eqb (snd a) (snd b).
+Definition ids_spec_ok (cn : Z -> C16.Model.str -> Z) (allow : bool) (recs : list nrec) (out : res (list nrec)) : bool :=
+  match out, pp_ids_inproc cn allow recs with
+  | Ok l, Ok l' => list_eqb nrec_eqb l l' && C16.Model.distinct (nids l)
+  | Err _, Err _ => true
+  | _, _ => false
+  end.
+
 (* ---------- encoding ---------- *)
 (* a job travels as its duration class (0 negligible | 1 exceeds the timeout) and its sequential outcome:
    s 0 v (returns v) | s 1 kind (raises) *)
@@ -555,6 +679,31 @@ Definition dPPOut : dec (res (bool * list prec)) := fun l =>
 Definition dPPCase : dec (Z * popts * list prec * list (Z * res (Z * Z)) * list event * list event) :=
   dPair (dPair (dPair (dPair (dPair dZ dOpts) (dList dRec)) (dList dGf)) (dList dEvent)) (dList dEvent).
 
+(* identifier block: a record travels in as  id name seq  (strings as character codes; no original id, body with one
+   CDS feature), and comes back as  id name original_id(option) record_index skip seq *)
+Definition dNrecIn : dec nrec := fun l =>
+  match dPair (dPair C16.Model.dStr C16.Model.dStr) (dList dZ) l with
+  | Some ((i, n, sq), r) => Some ((C16.Model.mkRec i n None 0, mkR 0 0 sq 0 1 0), r)
+  | None => None
+  end.
+Definition eNrec (r : nrec) : list Z :=
+  C16.Model.eStr (C16.Model.r_id (fst r)) ++ C16.Model.eStr (C16.Model.r_name (fst r)) ++ eOpt C16.Model.eStr (C16.Model.r_orig (fst r)) ++
+  [r_index (snd r); r_skip (snd r)] ++ eList (fun c => [c]) (r_seq (snd r)).
+Definition dNrecOut : dec nrec := fun l =>
+  match dPair (dPair C16.Model.dStr C16.Model.dStr) (dPair (dOpt C16.Model.dStr) (dPair (dPair dZ dZ) (dList dZ))) l with
+  | Some ((i, n, (o, ((ix, sk), sq))), r) => Some ((C16.Model.mkRec i n o ix, mkR 0 ix sq sk 1 0), r)
+  | None => None
+  end.
+Definition dIdsOut : dec (res (list nrec)) := fun l =>
+  match l with
+  | 0 :: r => match dList dNrecOut r with Some (x, r') => Some (Ok x, r') | None => None end
+  | 1 :: k :: r => Some (Err k, r)
+  | _ => None
+  end.
+(* payload: cfg_cpus allow_long_headers records schedule *)
+Definition dIdsCase : dec (Z * bool * list nrec * list event) :=
+  dPair (dPair (dPair dZ dBool) (dList dNrecIn)) (dList dEvent).
+
 (* payload: cfg_cpus cpus timeout(option) tasks(list) schedule(list) *)
 Definition dCase : dec (Z * Z * option Z * list (bool * res Z) * list event) :=
   dPair (dPair (dPair (dPair dZ dZ) (dOpt dZ)) (dList dTask)) (dList dEvent).
@@ -590,6 +739,17 @@ Definition run_C18 (fn : Z) (l : list Z) : list Z :=
          | _ => bad_input end
   | 13 => match dPair dPPCase dPPOut l with
          | Some ((cfg, o, recs, tbl, _, _, out), []) => eBool (pp_spec_ok (gf_of_table tbl) o recs out)
+         | _ => bad_input end
+  | 4 => (* the identifier block of pre_process_sequences with the configured workers *)
+         match dIdsCase l with
+         | Some ((cfg, allow, recs, sched), []) => eRes (eList eNrec) (pp_ids C16.Model.contig_no allow cfg sched recs)
+         | _ => bad_input end
+  | 14 => match dPair dIdsCase dIdsOut l with
+         | Some ((_, allow, recs, _, out), []) => eBool (ids_spec_ok C16.Model.contig_no allow recs out)
+         | _ => bad_input end
+  | 5 => (* the VARIANT with the bookkeeping per call on a copy (what C18_preprocess_ids_per_call_copy_refuted is about) *)
+         match dIdsCase l with
+         | Some ((cfg, allow, recs, sched), []) => eRes (eList eNrec) (pp_ids_per_call C16.Model.contig_no allow cfg sched recs)
          | _ => bad_input end
   | _ => bad_input
   end.
